@@ -1,7 +1,7 @@
 from harness import evprops, hcommon, hprop_run, sysprops
 
 PROP = "C01"
-EXTRA_PROPS = ("C01b", "C01c") if PROP == "C01" else ()    # whole-FSM: success only from a verified state; two-sided system theorem over every fault schedule
+EXTRA_PROPS = ("C01b", "C01c", "C01s") if PROP == "C01" else ()    # whole-FSM: success only from a verified state; two-sided system theorem over every fault schedule
 RULES = {
  "C02": "fault-free link: modes x closure x checksum types x sizes 0..13 x random CRC flag / id widths / seq widths / segment length / "
         "max packet length / NAK mode x destination as file / directory / existing file x pacing (0-3 extra empty calls per round), "
